@@ -95,11 +95,23 @@ theorem tokenize_render (pr : α → Str) (l : List (Token α × Str))
 theorem eval_print_string (env : Env) (pr : α → Str) (l : EList α) (ws : List Str) (st st' : σ)
     (v : Value α) (hlen : (pEList l).length ≤ ws.length)
     (hlex : ∀ p ∈ (pEList l).zip ws, Lexable o pr p.1 ∧ IsWs p.2)
-    (hd : dEList o (lookup o env elref) elref l [] st = .ok (v, st')) :
+    (hdepth : nestingDepth (pEList l) ≤ maxExprDepth)
+    (hd : dEList o (lookup o env elref (nestingDepth (pEList l) + 1)) elref l [] st = .ok (v, st')) :
     evalStr o env elref (render pr ((pEList l).zip ws)) st = .ok (v.display o, st') := by
   unfold evalStr
   rw [tokenize_render o pr _ hlex, List.map_fst_zip hlen]
-  simp only [eval_print o (lookup o env elref) elref l [] st st' v hd]
+  have hn : ¬ (nestingDepth (pEList l) > maxExprDepth) := by omega
+  simp only [evaluateAt, Nat.zero_add,
+    eval_print o (lookup o env elref _) elref l [] st st' v hd, if_neg hn]
+
+/-- **an expression nested too deeply fails before anything is parsed** (and so before anything is
+    evaluated): the guard that replaces the stack overflow of the recursive parser -/
+theorem too_deep_fails (env : Env) (value : Str) (ts : List (Token α)) (st : σ)
+    (ht : tokenize o value = .ok ts) (hd : maxExprDepth < nestingDepth ts) :
+    evalStr o env elref value st = .error .depthLimit := by
+  unfold evalStr
+  rw [ht]
+  simp only [evaluateAt, Nat.zero_add, hd, if_true]
 
 /-!
 ### 2. Precedence and associativity (corollaries on explicit token strings)
@@ -349,38 +361,41 @@ theorem unevaluable_variable_fails (ck : List Str) (ts : List (Token α)) (st : 
   cases h'
 
 /-- `lookup` of a name the context does not define is a `ParseError` -/
-theorem undefined_variable_error (env : Env) (n : Nat) (x : Str) (ck : List Str) (st : σ)
+theorem undefined_variable_error (env : Env) (n base : Nat) (x : Str) (ck : List Str) (st : σ)
     (hx : assoc x env = none) (hck : x ∉ ck) :
-    lookupN o env elref (n + 1) x ck st = .error .parse := by
+    lookupN o env elref (n + 1) base x ck st = .error .parse := by
   simp [lookupN, hx, hck]
 
 /-- **undefined variable** at the level of the `{{…}}` body -/
 theorem undefined_variable_fails (env : Env) (ts : List (Token α)) (st : σ) (x : Str)
     (hin : Token.var x ∈ ts) (hx : assoc x env = none) :
-    ∃ e, evaluate o (lookup o env elref) elref [] ts st = .error e := by
-  apply unevaluable_variable_fails o (lookup o env elref) elref [] ts st x hin
-  intro ck' st'
-  unfold lookup lookupN
+    ∃ e, evaluateAt o (lookup o env elref) elref 0 [] ts st = .error e := by
+  unfold evaluateAt
   split
   · exact ⟨_, rfl⟩
-  · simp [hx]
+  · apply unevaluable_variable_fails o (lookup o env elref _) elref [] ts st x hin
+    intro ck' st'
+    unfold lookup lookupN
+    split
+    · exact ⟨_, rfl⟩
+    · simp [hx]
 
 /-- **circular variable**: looking up a variable that is already being expanded is a
     `CircularRefError` -/
-theorem circular_variable_error (env : Env) (n : Nat) (x : Str) (ck : List Str) (st : σ)
+theorem circular_variable_error (env : Env) (n base : Nat) (x : Str) (ck : List Str) (st : σ)
     (hck : x ∈ ck) :
-    lookupN o env elref (n + 1) x ck st = .error .circular := by
+    lookupN o env elref (n + 1) base x ck st = .error .circular := by
   simp [lookupN, hck]
 
 /-- a variable whose own value mentions it can never be evaluated, at any nesting budget -/
 theorem self_reference_fails (env : Env) (x : Str) (inner : Str) (ts : List (Token α))
     (hx : assoc x env = some inner) (ht : tokenize o inner = .ok ts) (hin : Token.var x ∈ ts) :
-    ∀ n ck st, ∃ e, lookupN o env elref n x ck st = .error e := by
+    ∀ n base ck st, ∃ e, lookupN o env elref n base x ck st = .error e := by
   intro n
   induction n with
-  | zero => intro ck st; exact ⟨_, rfl⟩
+  | zero => intro base ck st; exact ⟨_, rfl⟩
   | succ n ih =>
-    intro ck st
+    intro base ck st
     unfold lookupN
     split
     · exact ⟨_, rfl⟩
@@ -389,8 +404,11 @@ theorem self_reference_fails (env : Env) (x : Str) (inner : Str) (ts : List (Tok
       | nil => cases hin
       | cons t r =>
         simp only
-        exact unevaluable_variable_fails o (lookupN o env elref n) elref (x :: ck) (t :: r) st x hin
-          (fun ck' st' => ih ck' st')
+        unfold evaluateAt
+        split
+        · exact ⟨_, rfl⟩
+        · exact unevaluable_variable_fails o (lookupN o env elref n _) elref (x :: ck) (t :: r) st x hin
+            (fun ck' st' => ih _ ck' st')
 
 /-- **wrong arity**: a built-in with a fixed number of parameters applied to another number of
     (flattened) arguments fails -/
@@ -507,6 +525,7 @@ end Svgdx.Props.C14
 #print axioms Svgdx.Props.C14.eval_print_iff
 #print axioms Svgdx.Props.C14.tokenize_render
 #print axioms Svgdx.Props.C14.eval_print_string
+#print axioms Svgdx.Props.C14.too_deep_fails
 #print axioms Svgdx.Props.C14.sub_left_assoc
 #print axioms Svgdx.Props.C14.mul_binds_tighter
 #print axioms Svgdx.Props.C14.mul_level_left_assoc
